@@ -52,6 +52,7 @@ def execute(case: dict) -> dict:
     from yarl import URL
 
     loop = new_loop()
+    loop.max_iters = 300000  # cases are small: a busy loop is reported after 3e5 iterations, not 3e6
     stats: dict = {"body": False}
     tmpfile = None
     try:
